@@ -23,6 +23,13 @@ Model of the success/failure decision of an immutable upload (C06).
     unfinished one and is a no-op on a closed one.
   * `CHKUploader._encrypted_done`: UploadResults.sharemap / servermap / pushed_shares are built from
     `encoder.get_shares_placed()` (the landlords that survived) and `_server_trackers`.
+  * `pre` (the selector's `preexisting_shares`, `already_serverids` of set_shareholders) holds COMPLETE,
+    reader-visible shares only: it is filled from `get_buckets` answers and from the `alreadygot` part of
+    `allocate_buckets` answers, and a storage server lists there final shares only — a share another upload
+    is still writing (incoming/) yields neither a bucket writer nor an `alreadygot` entry
+    (storage/server.py allocate_buckets; C22 `visible_iff_closed`).  So the layouts of the theorems
+    (`layoutPairs pre …`) consist of complete shares.  The harness checks this input assumption on concurrent
+    uploads of one file (every share an upload found must be a complete share in the server's final directory).
 The happiness function is a parameter `hp`; `soh` is C08's model of `servers_of_happiness`
 (`Tahoe.Happiness.serversOfHappiness`, reused, not copied), the instance the driver and the concrete
 theorems use.  Mathlib-free, executable.
